@@ -21,7 +21,7 @@ theorem getLast?_eraseIdx_lt {α : Type} (l : List α) (i : Nat) (h : i + 1 < l.
 theorem flatten_ne_nil_under (p : Params K) (pv : p.Valid) (h : Nat) (n : BNode K V)
     (hs : ShapeTop p (p.leafMin - 1) (p.innerMin - 1) h n) : flatten h n ≠ [] := by
   have hl4 := pv.leaf4
-  have hmin : 2 ≤ p.leafMin := by simp [Params.leafMin]; omega
+  have hmin : 2 ≤ p.leafMin := by simp [Params.leafMin, Gen.leafSlotmin]; omega
   cases h with
   | zero =>
     obtain ⟨es, rfl, h1, _⟩ := shapeTop0_leaf hs
@@ -107,7 +107,7 @@ theorem eraseInLeaf_sep (p : Params K) (pv : p.Valid) (sw : StrictWeak p.lt) (es
     (hslot : slot < es.length) (out : EraseOut K V) (ho : eraseInLeaf p es slot ctx = some out) :
     EraseSep p 0 (.leaf es) ctx out := by
   have hl4 := pv.leaf4
-  have hmin : 2 ≤ p.leafMin := by simp [Params.leafMin]; omega
+  have hmin : 2 ≤ p.leafMin := by simp [Params.leafMin, Gen.leafSlotmin]; omega
   simp only [Shape] at hs
   have hlen : (es.eraseIdx slot).length = es.length - 1 := List.length_eraseIdx_of_lt hslot
   unfold eraseInLeaf at ho
@@ -345,7 +345,7 @@ theorem eraseDescend_sep (p : Params K) (pv : p.Valid) (sw : StrictWeak p.lt) (t
       have hso0 := hso
       simp only [SepOk] at hso
       have hi4 := pv.inner4
-      have hkeys : 1 ≤ keys.length := by simp [Params.innerMin] at hmin; omega
+      have hkeys : 1 ≤ keys.length := by simp [Params.innerMin, Gen.innerSlotmin] at hmin; omega
       unfold eraseDescend at ho
       simp only at ho
       have hs0le := findLower_le p keys tg.tkey
